@@ -101,8 +101,12 @@ pub fn build_universe_with(
     let total = n + corpus.len();
     while cases.len() < total && attempts < total * 3 {
         attempts += 1;
+        let mut from_corpus = false;
         let (schema, doc) = match corpus.next() {
-            Some(x) => x,
+            Some(x) => {
+                from_corpus = true;
+                x
+            }
             None => {
                 let schema = random_schema(rng, sk);
                 let doc = random_doc(rng, &schema, ok);
@@ -120,8 +124,9 @@ pub fn build_universe_with(
         // the SDL text varies in ways that must not matter: `extend type` blocks (also carrying `implements`),
         // re-declared built-in scalars, default values on input fields
         let knobs = RenderKnobs {
-            use_extend: rng.chance(30),
-            extend_implements: rng.chance(50),
+            // fixed cases always use `extend type` blocks (carrying `implements`) where the schema has extension fields
+            use_extend: from_corpus || rng.chance(30),
+            extend_implements: from_corpus || rng.chance(50),
             sdl_builtin_scalars: rng.chance(15),
             input_defaults: rng.chance(30),
             ..RenderKnobs::default()
@@ -275,6 +280,23 @@ pub fn c01_corpus() -> Vec<(ASchema, ADoc)> {
         ),
         // a fragment on an interface under an object-typed parent is dropped
         (schema.clone(), mk(vec![fld("dog", vec![fld("barks", vec![]), ASel::Inline { on: "Animal".into(), sub: vec![fld("nick", vec![])] }])], vec![])),
+        // `Cat` joins the interface only through `extend type Cat implements Animal { meows }` (must hold: not a finding)
+        (
+            {
+                let mut s2 = schema.clone();
+                for t in s2.types.iter_mut() {
+                    if let AType::Object { name, fields, ext_fields, .. } = t {
+                        if name == "Cat" {
+                            let i = fields.iter().position(|f| f.name == "meows").unwrap();
+                            let m = fields.remove(i);
+                            ext_fields.push(m);
+                        }
+                    }
+                }
+                s2
+            },
+            mk(vec![fld("animal", vec![ASel::Typename, fld("nick", vec![]), ASel::Inline { on: "Cat".into(), sub: vec![fld("meows", vec![])] }, ASel::Inline { on: "Dog".into(), sub: vec![fld("barks", vec![])] }])], vec![]),
+        ),
     ]
 }
 
